@@ -110,7 +110,10 @@ def transplant(master, mit, regs, kept, ext, eit):
         prv = a - 1
         while prv >= mit.lo and prv not in kept_pos:
             prv -= 1
-        if prv < mit.lo:
+        if b == mit.body_lo and eit.body_lo >= 0 and a >= mit.sig_end:
+            # header clauses always go right in front of the body, whatever happened to the signature
+            pos = ext.toks[eit.body_lo].start
+        elif prv < mit.lo:
             # leading region (attributes): goes in front of the extracted item
             pos = ext.toks[eit.lo].start
             txt = master.src[master.toks[a].start:master.toks[b - 1].end] + "\n"
